@@ -194,6 +194,11 @@ def operations(grid):
         ("center-interpolation", lambda d: d.center(method_smoothing="interpolation")),
         ("norm", lambda d: d.norm()),
         ("norm-squared-stand", lambda d: d.norm(squared=True, use_argvals_stand=True)),
+        # squared: composite Simpson has a negative weight when neighbouring spacings differ by more than a factor 2, so the
+        # square root of a Simpson "squared norm" may legitimately be NaN (Lemmas/Simpson.v, simpson_weight_negative)
+        ("norm-squared-simpson", lambda d: d.norm(squared=True, method_integration="simpson")),
+        ("norm-squared-simpson-stand", lambda d: d.norm(squared=True, method_integration="simpson", use_argvals_stand=True)),
+        ("inner_product-simpson", lambda d: d.inner_product(method_integration="simpson", method_smoothing="LP", bandwidth=h)),
         ("noise_variance-1", lambda d: d.noise_variance(order=1)),
         ("noise_variance-2", lambda d: d.noise_variance(order=2)),
         ("covariance-raw", lambda d: d.covariance(method_smoothing="LP", smooth=False, kwargs_center={"bandwidth": h})),
@@ -626,7 +631,7 @@ def twin_check(rep, name, f, dense_twin, a_ref, n, h, ps, case, tol):
     equivalent = {
         "mean-LP": lambda d: d.mean(method_smoothing="LP", bandwidth=h),
         "smooth-LP": f, "smooth-LP-degree2": f, "smooth-PS": f, "smooth-PS-penalty10": f,
-        "norm": f, "norm-squared-stand": f, "noise_variance-1": f, "noise_variance-2": f,
+        "norm": f, "norm-squared-stand": f, "norm-squared-simpson": f, "norm-squared-simpson-stand": f, "noise_variance-1": f, "noise_variance-2": f,
         "covariance-raw": lambda d: d.covariance(method_smoothing=None, kwargs_center={"method_smoothing": "LP", "bandwidth": h}),
         "covariance-LP": lambda d: d.covariance(method_smoothing="LP", kwargs_center={"bandwidth": h}, bandwidth=h, degree=1),
         "inner_product": lambda d: d.inner_product(method_smoothing="LP", noise_variance=0.0, bandwidth=h),
